@@ -125,11 +125,14 @@ func storeCasmHashMetadataV1(
 			)
 		}
 
-		v2Hash := sierraClass.Compiled.Hash(core.HashVersionV2)
+		v2Hash, err := compiledClassHashV2(&sierraClassHash, sierraClass, blockNumber)
+		if err != nil {
+			return err
+		}
 		casmHashV2 := felt.CasmClassHash(v2Hash)
 
 		metadata := core.NewCasmHashMetadataDeclaredV1(blockNumber, casmHashV1, &casmHashV2)
-		err := core.WriteClassCasmHashMetadata(
+		err = core.WriteClassCasmHashMetadata(
 			writer,
 			(*felt.SierraClassHash)(&sierraClassHash),
 			&metadata,
@@ -139,6 +142,36 @@ func storeCasmHashMetadataV1(
 		}
 	}
 	return nil
+}
+
+// compiledClassHashV2 computes the V2 hash of the compiled class of a class a block declares.
+// The compiled class comes from the network and nothing verifies it before this point (the
+// compiled class hash the state diff declares is not recomputed): it can be absent (a class whose
+// compiled class has the deprecated format is delivered without one) or malformed (a bytecode
+// shorter than its segment lengths add up to), and the hash function then dereferences nil or
+// slices out of range. This runs inside Store's write batch: such a block must be rejected, not
+// take the node down.
+func compiledClassHashV2(
+	sierraClassHash *felt.Felt,
+	class *core.SierraClass,
+	blockNumber uint64,
+) (hash felt.Felt, err error) {
+	if class.Compiled == nil {
+		return felt.Felt{}, fmt.Errorf("malformed compiled class: class %s has no compiled class at block %d",
+			sierraClassHash.String(),
+			blockNumber,
+		)
+	}
+	defer func() {
+		if r := recover(); r != nil {
+			err = fmt.Errorf("malformed compiled class of class %s at block %d: %v",
+				sierraClassHash.String(),
+				blockNumber,
+				r,
+			)
+		}
+	}()
+	return class.Compiled.Hash(core.HashVersionV2), nil
 }
 
 // revertCasmHashMetadata reverts CASM hash metadata for declared and migrated classes.
